@@ -1,34 +1,50 @@
 use crate::build::{al, ba, co, exu};
+use crate::c33::*;
 use pallas_codec::utils::{Bytes, KeepRaw, NonEmptySet, Nullable};
 use pallas_primitives::Hash;
 use pallas_validate::phase1::{alonzo, babbage, conway};
 
-fn addr<const N: usize>(hdr: u8) -> Bytes {
-    let mut a: [u8; N] = kani::any();
-    a[0] = hdr;
-    Bytes::from(a.to_vec())
-}
-
-macro_rules! p {
-    ($name:ident, $n:expr, $ty:expr) => {
 #[kani::proof]
 #[kani::unwind(60)]
 #[kani::stub(std::fmt::format, crate::stubs::fmt_format_stub)]
-fn $name() {
-    let mut body = al::body();
-    let mut arr = [al::TransactionOutput { address: addr::<$n>($ty), amount: al::Value::Coin(kani::any()), datum_hash: None }];
+fn probe_post_net() {
+    let raw = [0u8; 1];
+    let mut body = ba::body();
+    let mut arr = [ba_post::<29>(&raw, 0x71)];
     body.outputs = unsafe { Vec::from_raw_parts(arr.as_mut_ptr(), 1, 0) };
     let net: u8 = kani::any();
-    let r1 = alonzo::verif_hooks::check_network_id(&body, &net);
-    kani::cover!(r1.is_ok(), "output on the right network");
-    kani::cover!(r1.is_err(), "output rejected (network / undecodable address)");
+    let r1 = babbage::verif_hooks::check_network_id(&body, &net);
+    kani::cover!(r1.is_err(), "output rejected by the network rule");
     core::mem::forget(r1);
     core::mem::forget(body);
     core::mem::forget(arr);
 }
-    };
+
+#[kani::proof]
+#[kani::unwind(60)]
+#[kani::stub(std::fmt::format, crate::stubs::fmt_format_stub)]
+#[kani::stub(pallas_codec::minicbor::encode::Error::write, crate::stubs::mcb_write_err_stub)]
+fn probe_post_minl() {
+    let raw = [0u8; 1];
+    let mut body = ba::body();
+    let mut arr = [ba_post::<29>(&raw, 0x71)];
+    body.outputs = unsafe { Vec::from_raw_parts(arr.as_mut_ptr(), 1, 0) };
+    let mut pp = ba::pp();
+    pp.ada_per_utxo_byte = kani::any();
+    kani::assume(pp.ada_per_utxo_byte < (1 << 32));
+    let r2 = babbage::verif_hooks::check_min_lovelace(&body, &pp);
+    kani::cover!(r2.is_ok(), "enough lovelace");
+    core::mem::forget(r2);
+    core::mem::forget(pp);
+    core::mem::forget(body);
+    core::mem::forget(arr);
 }
-p!(probe_net_t6_k1, 29, 0x61);
-p!(probe_net_t6_k5, 29, 0x65);
-p!(probe_net_t0_k0, 57, 0x00);
-p!(probe_net_t6_short, 20, 0x61);
+
+#[kani::proof]
+#[kani::unwind(60)]
+fn probe_post_build_only() {
+    let raw = [0u8; 1];
+    let mut arr = [ba_post::<29>(&raw, 0x71)];
+    assert!(arr.len() == 1);
+    core::mem::forget(arr);
+}
